@@ -926,6 +926,7 @@ restore_ownership (void *data)
 {
   OwnershipRestoreData *d = data;
   DBusList *link;
+  dbus_bool_t still_in_queue;
 
   _dbus_assert (d->service_link != NULL);
   _dbus_assert (d->owner_link != NULL);
@@ -934,10 +935,19 @@ restore_ownership (void *data)
     {
       _dbus_assert (d->hash_entry != NULL);
       bus_service_relink (d->service, d->hash_entry);
+      d->hash_entry = NULL;
     }
-  else
+  /* else the service never left the registry, and the preallocated
+   * entry is released by free_ownership_restore_data() */
+
+  /* bus_service_swap_owner() only moved the owner to another place in the
+   * queue: take it out of there, it goes back to its old place below */
+  still_in_queue = FALSE;
+  link = _dbus_list_find_last (&d->service->owners, d->owner);
+  if (link != NULL)
     {
-      _dbus_assert (d->hash_entry == NULL);
+      _dbus_list_remove_link (&d->service->owners, link);
+      still_in_queue = TRUE;
     }
   
   /* We don't need to send messages notifying of these
@@ -954,18 +964,16 @@ restore_ownership (void *data)
     }
   
   _dbus_list_insert_before_link (&d->service->owners, link, d->owner_link);
-
-  /* Note that removing then restoring this changes the order in which
-   * ServiceDeleted messages are sent on destruction of the
-   * connection.  This should be OK as the only guarantee there is
-   * that the base service is destroyed last, and we never even
-   * tentatively remove the base service.
-   */
-  bus_connection_add_owned_service_link (d->owner->conn, d->service_link);
-  
-  d->hash_entry = NULL;
-  d->service_link = NULL;
   d->owner_link = NULL;
+
+  if (!still_in_queue)
+    {
+      /* bus_service_unlink_owner() dropped the queue's reference. This
+       * hook still holds one, so the owner was never destroyed and its
+       * connection still counts the name among those it owns: only the
+       * queue's reference has to be taken again. */
+      bus_owner_ref (d->owner);
+    }
 }
 
 static void
